@@ -31,7 +31,7 @@ Print Assumptions C13_src_lshift.
 Example C13_src_example :
   let mk := map (fun x => L x true) in
   let rec := PR KCircularRecord (mk [cA;cC;cG;cT]) 7
-                [F false 1 5 [P 1 2 Plus; P 3 4 Plus]] (Some "circular"%string) [[10; 11; 12; 13]] in
+                [F false 1 5 [P 1 2 Plus; P 3 4 Plus]] (AN (Some "circular"%string) None []) [[10; 11; 12; 13]] 0 in
   match CircularRecord_rshift 2 rec 6 with
   | Ok r => to_record r = rot_record 6 (to_record rec) /\ pr_seq r = mk [cG;cT;cA;cC]
             /\ pr_letter_annotations r = [[12; 13; 10; 11]]
